@@ -58,6 +58,12 @@ class LogicConv2d(nn.Module):
             parametrization: Parametrization to use ("raw" or "walsh")
         """
         super().__init__()
+        if parametrization not in ("raw", "walsh"):
+            raise ValueError(f"Unknown parametrization: {parametrization}")
+        if weight_init not in ("residual", "random"):
+            raise ValueError(f"Unknown weight_init: {weight_init}")
+        if forward_sampling not in ("soft", "hard", "gumbel_soft", "gumbel_hard"):
+            raise ValueError(f"Unknown forward_sampling: {forward_sampling}")
         self.parametrization = parametrization
         self.forward_sampling = forward_sampling
 
@@ -121,6 +127,8 @@ class LogicConv2d(nn.Module):
                 [torch.nn.functional.one_hot(w.argmax(-1), 16).to(torch.float32)
                  for w in self.tree_weights[level]], dim=0
             )
+        if self.forward_sampling in ("gumbel_soft", "gumbel_hard") and self.temperature <= 0:
+            raise ValueError("Temperature must be positive")
         weighting_func = {
             "soft": lambda w: soft_raw(w, tau=self.temperature),
             "hard": lambda w: hard_raw(w, tau=self.temperature),
@@ -145,6 +153,10 @@ class LogicConv2d(nn.Module):
 
     def forward(self, x):
         """Implement the binary tree using the pre-selected indices."""
+        assert x.ndim == 4 and tuple(x.shape[1:]) == (self.channels, *self.in_dim), (
+            f"Expected input of shape (batch, {self.channels}, {self.in_dim[0]}, {self.in_dim[1]}), "
+            f"got {tuple(x.shape)}."
+        )
         if self.grad_factor != 1.0:
             x = GradFactor.apply(x, self.grad_factor)
         current_level = x
@@ -432,6 +444,10 @@ class LogicConv3d(nn.Module):
 
     def forward(self, x):
         """Implement the binary tree using the pre-selected indices."""
+        assert x.ndim == 5 and tuple(x.shape[1:]) == (self.channels, *self.in_dim), (
+            f"Expected input of shape (batch, {self.channels}, {self.in_dim[0]}, {self.in_dim[1]}, "
+            f"{self.in_dim[2]}), got {tuple(x.shape)}."
+        )
         if self.grad_factor != 1.0:
             x = GradFactor.apply(x, self.grad_factor)
         current_level = x
